@@ -640,8 +640,9 @@ func (e *Enc) encodeMapUpdate(x *ssa.MapUpdate) {
 	e.frameObligation(x, "mapupdate", e.p.mapKey(mt), m, x.Pos())
 	e.writersObligation(e.p.mapKey(mt), m, x.Pos())
 	if e.fc != nil {
+		ord := e.mapUpdateOrdinal(x)
 		for i, at := range e.fc.At {
-			if at.Callee != "mapupdate" {
+			if at.Callee != "mapupdate" && at.Callee != fmt.Sprintf("mapupdate#%d", ord) {
 				continue
 			}
 			env := e.fnEnv(e.cur)
@@ -789,6 +790,9 @@ func (e *Enc) encodeStore(x *ssa.Store) {
 		return
 	}
 	_ = valT
+	if av.Addr.Kind == "field" && e.prefix == "" {
+		e.directStores[e.p.fieldKey(av.Addr.Struct, av.Addr.Field)] = true
+	}
 	e.guardObligation(av.Addr, x.Pos(), "write")
 	e.monotoneObligation(av.Addr, e.termOf(x.Val), x.Pos())
 	if av.Addr.Kind == "field" {
@@ -1229,3 +1233,22 @@ func (e *Enc) implements(dyn Term, iface types.Type) Term {
 var _ = strings.Contains
 
 func (e *Enc) seenKey(r *ssa.Range) string { return "gh|$seen|" + e.prefix + r.Name() }
+
+// mapUpdateOrdinal: index of the map update among the map updates of the function, in source order.
+func (e *Enc) mapUpdateOrdinal(x *ssa.MapUpdate) int {
+	var all []*ssa.MapUpdate
+	for _, b := range e.fn.Blocks {
+		for _, in := range b.Instrs {
+			if mu, ok := in.(*ssa.MapUpdate); ok {
+				all = append(all, mu)
+			}
+		}
+	}
+	sort.SliceStable(all, func(i, j int) bool { return all[i].Pos() < all[j].Pos() })
+	for i, mu := range all {
+		if mu == x {
+			return i
+		}
+	}
+	return -1
+}
